@@ -18,6 +18,8 @@ import (
 
 	"github.com/anishathalye/porcupine"
 
+	"lunar/toolkit-core/verifhook"
+
 	"verif/harness/sim"
 )
 
@@ -364,8 +366,8 @@ func main() {
 	clk := sim.NewVClock(t0)
 	sim.UseClock(clk)
 
-	nSeq := args.Pick(320, 6400)
-	nConc := args.Pick(64, 3200)
+	nSeq := args.Pick(3200, 12000)
+	nConc := args.Pick(480, 4000)
 	total := nSeq + nConc
 	lo, hi := args.Share(total)
 	if args.Replay != "" {
@@ -376,6 +378,10 @@ func main() {
 		r := args.CaseRand(i)
 		qc := genCase(r)
 		qc.Concurrent = i >= nSeq
+		if i < nSeq && i%8 == 7 && !qc.NoLimiter {
+			runStraddle(i, args, r, qc, v, root, clk)
+			continue
+		}
 		runCase(i, args, r, qc, v, root, clk, nil)
 	}
 	if v.Counters["refused"] == 0 || v.Counters["admitted"] == 0 {
@@ -586,50 +592,44 @@ func concurrentRound(idx int, args sim.Args, r *sim.Rand, qc quotaCase, env *sim
 			return false
 		}
 	}
+	// Bound under concurrency (the statement demands exact refusals only for one-at-a-time handling):
+	// the admitted requests of the round, applied to the reference model in any order, must all fit.
+	// Refused requests are ignored - they may have consumed lower-level slots, which only makes the
+	// model's counters an under-approximation of the real ones.
 	anyOK := false
-	unknown := false
 	var reasons []string
 	for i, m0 := range models {
 		if alive[i] != "" {
 			continue
 		}
-		pm := porcupine.Model{
-			Init: func() interface{} { return m0.clone() },
-			Step: func(state, input, output interface{}) (bool, interface{}) {
-				m := state.(*model).clone()
-				in := input.(concIn)
-				ok, _ := m.step(in.TNs, in.Headers)
-				return ok == output.(bool), m
-			},
-			Equal: func(a, b interface{}) bool { return a.(*model).encode() == b.(*model).encode() },
+		m := m0.clone()
+		fits := true
+		for _, a := range round {
+			if a.Refused {
+				continue
+			}
+			if ok, by := m.step(at.UnixNano(), a.Headers); !ok {
+				fits = false
+				reasons = append(reasons, fmt.Sprintf("%s: node %s exceeds its maximum", conventions[i].String(), by))
+				break
+			}
 		}
-		res := porcupine.CheckOperationsTimeout(pm, ops, 60*time.Second)
-		switch res {
-		case porcupine.Ok:
+		if fits {
 			anyOK = true
-		case porcupine.Unknown:
-			unknown = true
-		default:
-			reasons = append(reasons, conventions[i].String()+": not linearizable")
-		}
-		if anyOK {
 			break
 		}
 	}
-	v.Count("porcupine_checks", 1)
+	_ = ops
+	v.Count("concurrent_bound_checks", 1)
 	if !anyOK {
-		if unknown {
-			v.Inconclude(fmt.Sprintf("case %d: porcupine timed out", idx))
-			return false
-		}
 		adm := 0
 		for _, a := range round {
 			if !a.Refused {
 				adm++
 			}
 		}
-		v.Violate(fmt.Sprintf("C01/concurrent-not-linearizable/depth%d", qc.LimiterOn),
-			fmt.Sprintf("%d concurrent requests at a frozen instant, %d admitted: no sequential order of the reference model explains the verdicts (%s)", len(round), adm, strings.Join(reasons, "; ")),
+		v.Violate(fmt.Sprintf("C01/concurrent-over-admission/depth%d", qc.LimiterOn),
+			fmt.Sprintf("%d concurrent requests at a frozen instant, %d admitted: under every window convention the admitted ones alone exceed a quota of the chain (%s)", len(round), adm, strings.Join(reasons, "; ")),
 			replay{Case: idx, Seed: args.Seed, Quota: qc, Arrivals: history, Round: round})
 		return false
 	}
@@ -641,4 +641,105 @@ func concurrentRound(idx int, args sim.Args, r *sim.Rand, qc quotaCase, env *sim
 		}
 	}
 	return true
+}
+
+
+// runStraddle: a request that was counted into a full window is parked between the limiter's
+// Inc and its Allowed; meanwhile the window rolls over and is filled by other requests; then the
+// parked request reads its verdict. Its arrival window and its verdict window are both full, so it
+// must be refused whatever the window convention.
+func runStraddle(idx int, args sim.Args, r *sim.Rand, qc quotaCase, v *sim.Verdict, root string, clk *sim.VClock) {
+	v.Eval(1)
+	cfg := sim.Config{Quotas: map[string]string{"quota.yaml": qc.QuotaYAML}, Flows: map[string]string{"flow.yaml": qc.FlowYAML}}
+	base := clk.Now().Add(10 * time.Minute).Truncate(time.Second).Add(300 * time.Millisecond)
+	clk.Set(base)
+	env, err := sim.NewStreamEnv(root, cfg)
+	if err != nil {
+		return
+	}
+	defer env.Cleanup()
+	h := map[string]string{"x-group": "g1", "x-tenant": "t1"}
+	send := func(id string) bool {
+		res := env.OnRequest(sim.Txn{ID: fmt.Sprintf("c%d-%s", idx, id), Method: "GET", URL: "a.com/x", Headers: h})
+		return res.Early == nil && res.Err == nil
+	}
+	// capacity seen through the limiter = the smallest maximum on the chain; longest window on the chain
+	minMax, maxW := int64(1<<62), int64(0)
+	for i := qc.LimiterOn; i >= 0; i-- {
+		if qc.Chain[i].Max < minMax {
+			minMax = qc.Chain[i].Max
+		}
+		if qc.Chain[i].WindowS > maxW {
+			maxW = qc.Chain[i].WindowS
+		}
+	}
+	if minMax < 1 {
+		return
+	}
+	var arrivals []arrival
+	admitted1 := 0
+	for i := 0; i < int(minMax)+2; i++ {
+		ok := send(fmt.Sprintf("fill1-%d", i))
+		arrivals = append(arrivals, arrival{OffsetNs: 0, ID: fmt.Sprintf("fill1-%d", i), Headers: h, Refused: !ok})
+		if ok {
+			admitted1++
+		}
+	}
+	parked := make(chan struct{})
+	release := make(chan struct{})
+	xid := fmt.Sprintf("c%d-X", idx)
+	verifhook.SetYield(func(point string, a []string) {
+		if point == "limiter.between-inc-and-allowed" && len(a) > 0 && a[0] == xid {
+			close(parked)
+			<-release
+		}
+	})
+	defer verifhook.SetYield(nil)
+	done := make(chan bool, 1)
+	go func() { done <- send("X") }()
+	select {
+	case <-parked:
+	case ok := <-done:
+		_ = ok
+		return // the limiter did not reach the yield point (refused before counting)
+	case <-time.After(20 * time.Second):
+		v.Inconclude(fmt.Sprintf("case %d: parked request never reached the limiter", idx))
+		close(release)
+		return
+	}
+	// every window of the chain rolls over
+	clk.Set(base.Add(time.Duration(maxW)*time.Second + 700*time.Millisecond))
+	admitted2 := 0
+	for i := 0; i < int(minMax)+2; i++ {
+		ok := send(fmt.Sprintf("fill2-%d", i))
+		arrivals = append(arrivals, arrival{OffsetNs: clk.Now().Sub(base).Nanoseconds(), ID: fmt.Sprintf("fill2-%d", i), Headers: h, Refused: !ok})
+		if ok {
+			admitted2++
+		}
+	}
+	close(release)
+	var xok bool
+	select {
+	case xok = <-done:
+	case <-time.After(20 * time.Second):
+		v.Inconclude(fmt.Sprintf("case %d: parked request never returned", idx))
+		return
+	}
+	arrivals = append(arrivals, arrival{OffsetNs: 0, ID: "X (counted at +0, verdict read after the rollover)", Headers: h, Refused: !xok})
+	v.Count("straddle_scenarios", 1)
+	rp := replay{Case: idx, Seed: args.Seed, Quota: qc, Arrivals: arrivals, Note: "straddle: X parked between Inc and Allowed across a window rollover"}
+	if int64(admitted1) > minMax || int64(admitted2) > minMax {
+		v.Violate(fmt.Sprintf("C01/over-admission/depth%d/straddle-fill", qc.LimiterOn), fmt.Sprintf("a fill phase admitted %d / %d requests, the chain allows %d per window", admitted1, admitted2, minMax), rp)
+		return
+	}
+	if xok && int64(admitted1) == minMax && int64(admitted2) == minMax {
+		v.Violate(fmt.Sprintf("C01/over-admission/depth%d/verdict-read-after-rollover", qc.LimiterOn),
+			fmt.Sprintf("request X was counted into a full window (%d of %d admitted), parked, the window rolled over and was filled again (%d of %d), then X was let through: its arrival window and its verdict window both hold the maximum already", admitted1, minMax, admitted2, minMax), rp)
+		return
+	}
+	if !xok {
+		v.Count("refused", 1)
+		v.Count("straddle_refused_as_required", 1)
+	}
+	v.Distinct(fmt.Sprintf("straddle/d%d/l%d/m%d", len(qc.Chain), qc.LimiterOn, minMax))
 }
